@@ -12,7 +12,7 @@ CLAUSES = {
     "unchanged-when-off": "with vertical diffusion and vertical advection off, Z is left untouched",
 }
 BOUNDS = {
-    "quick": "bathymetry of a 6x6 grid symbolic (1..5000 m per cell), 2 particles anywhere inside their start cells, each carried into a neighbour cell of different (symbolic) depth during the step, Z in [0,h], w and the normal draw any real with |displacement| < h, dt = 600 s, Dz in {0, 0.75}; horizontal schemes EF/RK2/RK4 with a horizontal move of up to one cell",
+    "quick": "bathymetry of a 6x6 grid symbolic (1..5000 m per cell), 2 particles anywhere inside their start cells, each carried into a neighbour cell of different (symbolic) depth during the step, Z in [0,h], w and the normal draw any real with |displacement| < h, dt = 600 s, Dz in {0, 0.75}; two steps of vertical motion only with the particle replaced in between (death, compactify, release in a cell of another depth); horizontal schemes EF/RK2/RK4 with a horizontal move of up to one cell",
     "thorough": "2 free particles",
 }
 ASSUMES = ["start depth in [0, h] of the start cell", "|(w + w_diff) dt| < h"]
@@ -25,6 +25,10 @@ def scenarios(tier):
         for mode in ("adv", "diff", "both", "off"):
             out.append(dict(name=f"{adv}-{mode}", fn="run", params=dict(adv=adv, mode=mode, npart=1), cost=10))
     out.append(dict(name="RK2-both-p2", fn="run", params=dict(adv="RK2", mode="both", npart=2), cost=100))
+    # two steps of vertical motion only (no horizontal advection or diffusion) with a change of membership in between: the particle
+    # dies and is removed, another one is released in a cell of another depth (same count) - the second step must use that cell's depth
+    for mode in ("adv", "both"):
+        out.append(dict(name=f"twostep-replace-{mode}", fn="twostep", params=dict(adv="none", mode=mode), cost=10))
     if tier != "quick":
         out.append(dict(name="RK4-both-p2", fn="run", params=dict(adv="RK4", mode="both", npart=2), cost=100))
     return out
@@ -95,6 +99,47 @@ def run(W, p):
         exp = W.ite(W.lt(zz, 0), -zz, W.ite(W.lt(hh[n], zz), 2 * hh[n] - zz, zz))
         W.prove(W.implies(small, W.eq(Z1[n], exp)), "reflection", dict(particle=n, scheme=adv))
     return (adv, mode)
+
+
+def twostep(W, p):
+    mode = p["mode"]
+    trk, st = W.load("ladim.tracker"), W.load("ladim.state")
+    grid, mask, h = roms_grid(W, 6, 6, sub=None, sym_mask=False, sym_h=True)
+    dt = 600
+    cells = [(2, 2), (3, 3)]
+    x = [W.real(f"x{n}") for n in range(2)]
+    y = [W.real(f"y{n}") for n in range(2)]
+    z = [W.real(f"z{n}", 0) for n in range(2)]
+    hh = []
+    for n, (cx, cy) in enumerate(cells):
+        W.assume(W.all([W.lt(cx - W.frac(2, 5), x[n]), W.lt(x[n], cx + W.frac(2, 5)), W.lt(cy - W.frac(2, 5), y[n]), W.lt(y[n], cy + W.frac(2, 5))]), "each particle anywhere inside its cell")
+        hh.append(h[cy][cx])
+        W.assume(W.le(z[n], hh[n]), "start depth inside the column of the start cell")
+    wv = [W.real(f"w{n}") for n in range(2)]
+    Dz = W.frac(3, 4) if mode == "both" else 0
+    S = st.State()
+    S.append(X=W.arr(x[:1], "f"), Y=W.arr(y[:1], "f"), Z=W.arr(z[:1], "f"))
+    F = StageForce(W, lambda k, c: [0], w=W.arr(wv[:1], "f"))
+    T = trk.Tracker(advection="", vertdiff=Dz, vertical_advection=True, modules=dict(state=S, grid=grid, forcing=F, time=Timer(dt)))
+    W.patch_rng(T)
+    T.update()
+    # the first particle dies and is removed; the second is released (what Model.update does between two tracker steps)
+    S["alive"] = W.arr([False], "b")
+    S.compactify()
+    S.append(X=W.arr(x[1:], "f"), Y=W.arr(y[1:], "f"), Z=W.arr(z[1:], "f"))
+    F.variables["w"] = W.arr(wv[1:], "f")
+    T.update()
+    Z2 = W.tolist(S.Z)
+    W.prove(len(Z2) == 1, "in-column", dict(note="one particle after the replacement"))
+    d = wv[1] * dt
+    if mode == "both":
+        d = d + _sqrt(W, 2 * Dz / dt) * W.xi(1, 0) * dt
+    small = W.all([W.lt(-hh[1], d), W.lt(d, hh[1])])
+    W.prove(W.implies(small, W.all([W.le(0, Z2[0]), W.le(Z2[0], hh[1])])), "in-column", dict(particle=1, note="second step, after the replacement"))
+    zz = z[1] + d
+    exp = W.ite(W.lt(zz, 0), -zz, W.ite(W.lt(hh[1], zz), 2 * hh[1] - zz, zz))
+    W.prove(W.implies(small, W.eq(Z2[0], exp)), "reflection", dict(particle=1, note="second step, after the replacement"))
+    return ("twostep", mode)
 
 
 def signature(v, scen):
